@@ -181,7 +181,7 @@ def attach_reader_details(effects, ops):
             t = _title_check(x["cond"])
             if t and t[0] in secs:
                 obj, s, neq = t
-                exits = x["then_exits"] if neq else x["else_exits"]
+                exits = (x.get("then_status") == "exit") if neq else (x.get("else_status") == "exit")
                 secs[obj]["title_checked"] = s if exits else None
                 secs[obj]["title_check_line"] = x["l"]
                 secs[obj]["title"] = s
